@@ -921,6 +921,12 @@ def do_op(tag, op):
         return "exc " + exc_name(e)
 
 
+def seen_by(tag):
+    """what the application sees through tag.ndef: message, capacity, flags"""
+    nd = tag.ndef
+    return "read=%s cap=%d w=%d" % (bytes(nd.octets).hex()[:64], nd.capacity, int(nd.is_writeable))
+
+
 def sequences(ck, model3):
     """2..4 application calls {read, write, format, format+wipe, format(version), protect} on ONE tag object.  After
     every call: (a) the bytes changed and the commands sent are judged against the area of the layout that is on the
@@ -1049,6 +1055,7 @@ def sequences(ck, model3):
                 try:
                     sim.arm(None)
                     out = do_op(tag, op)
+                    seen = seen_by(tag) if op[0] == "r" and out == "true" else None
                     cmds = list(sim.writes)
                     after = bytes(sim.mem)
                     # the same call on a fresh object
@@ -1056,6 +1063,7 @@ def sequences(ck, model3):
                     ftag = activate(fsim)
                     fsim.arm(None)
                     fout = do_op(ftag, op)
+                    fseen = seen_by(ftag) if op[0] == "r" and fout == "true" else None
                     fcmds, fafter = list(fsim.writes), bytes(fsim.mem)
                 except Exception as e:  # noqa
                     ck.fail("t12-unexpected-exception", "%s: %s raised %s: %s" % (cls, descr, exc_name(e), e), replay)
@@ -1066,6 +1074,9 @@ def sequences(ck, model3):
                 if out.startswith("exc") and out[4:] in INTERNAL and not (out == "exc AttributeError" and op[0] == "w" and readonly) \
                         and not (out == "exc ValueError" and op[0] == "w" and len(op[1]) > cap):
                     ck.fail("t12-sequence-unexpected-exception", "%s ended with %s" % (what, out), replay)
+                if seen != fseen:
+                    ck.fail("t12-sequence-stale-object-state", "%s: the used tag object presents %s, a fresh one activated on the same "
+                            "memory %s" % (what, seen, fseen), replay)
                 if (out, cmds, after) != (fout, fcmds, fafter):
                     k = next((i for i in range(min(len(after), len(fafter))) if after[i] != fafter[i]), -1)
                     ck.fail("t12-sequence-stale-object-state", "%s behaves differently on the used tag object than on a fresh one "
